@@ -37,6 +37,18 @@ def gen_cases(rng, tier):
         for nm, hm, row in (("mixed", True, mixed), ("m255", True, full), ("nomask", False, full), ("m0", True, zero)):
             s, a = px_case(kind, mode, hq, aa, color, hm, x0, ln, row, extra)
             cases.append((s, a + tag + [{"mixed": 0, "m255": 1, "nomask": 2, "m0": 3}[nm]]))
+    # tiled pixmaps (wider than 8191): the sub-mask of every tile must be addressed at its own offset
+    for g in range(6 if tier == "quick" else 60):
+        w = rng.choice([8192, 8200, 8300, 16400])
+        mode = rng.choice([3, 3, 4, 11, 12, 14, 24])
+        row = []
+        for x in range(w):
+            near = abs(x - 8191) < 40 or abs(x - 16382) < 40 or x < 20
+            p = rand_premul(rng) if near else (0, 0, 0, 0)
+            row.append(p + ((0 if (x // 7) % 2 == 0 else 255) if near else rng.choice([0, 255]),))
+        x0 = rng.choice([0, 8100, 8180]); ln = min(w - x0, rng.choice([w, 200, 8292 - x0 if 8292 > x0 else 50]))
+        s, a = px_case(4, mode, False, False, rand_color(rng), True, x0, max(1, ln), row)
+        cases.append((s, a + [-777, 10**9 + g, 9]))
     return cases
 
 
